@@ -333,11 +333,12 @@ class Ctx:
             if st['best_size'] is None or size < st['best_size']:
                 st['best'], st['best_size'] = case, size
 
-        def count(case):
+        def count(case, result=None):
+            # result: the Result the machine computed while running (saves re-executing the history)
             if st['first_fail'] is not None or st['harness'] is not None:
                 return
             try:
-                ctx.evaluate(case, check)
+                ctx.evaluate(case, check if result is None else (lambda c: result))
             except HarnessError as he:
                 st['harness'] = str(he)
 
